@@ -57,7 +57,7 @@ func c01L(v uint32) c01OpDef {
 }
 
 // Entry sizes (RFC 7541 §4.1: len(name)+len(value)+32):
-// (=)32 (n=)33 (=e)33 (k=v)34 (k=w)34 (b=…)36 (:method=X)40 (cookie=v)39 (h=aaaaaaaa)41 (big=…)135.
+// (=)32 (n=)33 (k=)33 (=e)33 (k=v)34 (k=w)34 (b=…)36 (:method=X)40 (cookie=v)39 (h=aaaaaaaa)41 (big=…)135.
 // Table sizes 33 / 70 therefore hold exactly the empty entry / two of the
 // small ones, and 30 / 31 sit on the two sides of the 5-bit prefix boundary.
 var c01OpTab = []c01OpDef{
@@ -81,6 +81,13 @@ var c01OpTab = []c01OpDef{
 	c01S("accept-charset=u", "accept-charset", "u"), // name index 15: exactly the 4-bit prefix boundary
 	c01S(":status=5", ":status", "5"),               // name index 14: just below it
 	c01S("=", "", ""),
+	// C05: the empty value on each side of every table-match situation (most static entries are (name, "")).
+	c01F("k=", "k", ""),                   // size 33; with k=v / k=w: dynamic name-only match, then dynamic full match of its sensitive twin
+	c01S("k=", "k", ""),                   // no match / dynamic name match / dynamic full match, empty value
+	c01F("cookie=", "cookie", ""),         // static full match with an empty value (index 32)
+	c01S("cookie=", "cookie", ""),         // ... sensitive: identical static entry exists, index >= 15
+	c01S(":authority=", ":authority", ""), // ... index 1 < 15
+	c01S(":method=", ":method", ""),       // static name-only match, empty value
 	c01B("k=v", "k", "v", false), c01B("k=w", "k", "w", false), c01B("=", "", "", false), c01B("cookie=v", "cookie", "v", false),
 	c01B("big=z*100", "big", strings.Repeat("z", 100), false), c01B("S:k=v", "k", "v", true),
 	{label: "End", kind: c01KEnd},
